@@ -353,6 +353,11 @@ func (s *socket) MaybeUpgrade(transport transports.Transport) {
 
 	// we force a polling cycle to ensure a fast upgrade
 	check = func() {
+		// the writability test and the send must not interleave with flush(),
+		// which hands the same pending poll to the write buffer's packets
+		s.flushMu.Lock()
+		defer s.flushMu.Unlock()
+
 		if transports.POLLING == s.Transport().Name() && s.Transport().Writable() {
 			vhook.Yield("socket.upgrade.check")
 			socket_log.Debug("writing a noop packet to polling for fast upgrade")
